@@ -365,6 +365,75 @@ theorem execR_extends (h : Heap) (t : TopologyR) (q : Query) : ∃ x, (execR h t
   | pred _ => exact ⟨[], by simp [execR]⟩
   | predOf _ => exact ⟨[], by simp [execR]⟩
 
+/-! ## the caller edits the struct it was handed (`own`, `ownrefs`): no cell of the topology is written -/
+
+/-- a pointer handed out by a look-up points at a cell the look-up allocated -/
+theorem execR_ptr_fresh (h : Heap) (t : TopologyR) (q : Query) (a : Nat) (hr : (execR h t q).1 = .tdP a) : h.length ≤ a := by
+  have hf : ∀ r, (retFresh h r).1 = .tdP a → h.length ≤ a := by
+    intro r hr
+    simp only [retFresh, Heap.alloc, ResR.tdP.injEq] at hr
+    omega
+  cases q with
+  | type id =>
+    simp only [execR] at hr
+    split at hr
+    · exact hf _ hr
+    · cases hr
+  | resolveA k => simp only [execR] at hr; split at hr <;> cases hr
+  | resolveB k =>
+    simp only [execR] at hr
+    split at hr
+    · exact hf _ hr
+    · cases hr
+  | resolveBid id =>
+    simp only [execR] at hr
+    split at hr
+    · split at hr
+      · exact hf _ hr
+      · cases hr
+    · exact hf _ hr
+  | defId id => simp only [execR] at hr; split at hr <;> cases hr
+  | hwcs => simp [execR] at hr
+  | xy _ => simp [execR] at hr
+  | text _ => simp [execR] at hr
+  | withDisplay => simp [execR] at hr
+  | resolveAx _ => simp [execR] at hr
+  | pred _ => simp [execR] at hr
+  | predOf _ => simp [execR] at hr
+
+theorem modify_append_ge (f : Cell → Cell) : ∀ (h y : Heap) (a : Nat), h.length ≤ a →
+    (h ++ y).modify a f = h ++ y.modify (a - h.length) f := by
+  intro h
+  induction h with
+  | nil => intro y a _; simp
+  | cons c r ih =>
+    intro y a ha
+    cases a with
+    | zero => simp at ha
+    | succ n =>
+      simp only [List.length_cons, Nat.add_le_add_iff_right] at ha
+      simp only [List.cons_append, List.modify_succ_cons, List.length_cons, Nat.add_sub_add_right, ih y n ha]
+
+/-- writing the struct a look-up handed out (any new contents, any cells allocated for it first) leaves the heap the
+topology lives in as it was: the heap afterwards is that heap plus cells behind it -/
+theorem writeOwn_extends (h : Heap) (t : TopologyR) (q : Query) (fresh : List Cell) (f : TypeDefR → TypeDefR) (h' : Heap)
+    (hw : writeOwn (execR h t q).2 (execR h t q).1 fresh f = some h') : ∃ z, h' = h ++ z := by
+  obtain ⟨x, hx⟩ := execR_extends h t q
+  unfold writeOwn at hw
+  split at hw
+  · rename_i a hr
+    simp only [Option.some.injEq] at hw
+    have ha := execR_ptr_fresh h t q a hr
+    rw [hx, List.append_assoc, Heap.writeTDR, modify_append_ge _ h (x ++ fresh) a ha] at hw
+    exact ⟨_, hw.symm⟩
+  · simp only [Option.some.injEq] at hw
+    rw [hx, List.append_assoc] at hw
+    exact ⟨_, hw.symm⟩
+  · simp only [Option.some.injEq] at hw
+    rw [hx, List.append_assoc] at hw
+    exact ⟨_, hw.symm⟩
+  · cases hw
+
 theorem absTopo_hwc (h : Heap) (t : TopologyR) : (absTopo h t).hwc = t.hwc.map (absHWc h) := rfl
 
 theorem resB_refines (h : Heap) (t : TopologyR) (hc : Closed h t) (k : Int) :
